@@ -472,7 +472,9 @@ def restore_checkpoint(path: str, model: nnx.Module) -> nnx.Module:
     """
     import orbax.checkpoint as ocp
 
+    graphdef, abstract_state = nnx.split(model)
     checkpointer = ocp.PyTreeCheckpointer()
-    state = checkpointer.restore(path)
-    graphdef, _ = nnx.split(model)
+    # restore into the structure of the model: without a target, list indices
+    # come back as strings and are matched to the layers in string order
+    state = checkpointer.restore(path, item=abstract_state)
     return nnx.merge(graphdef, state)
